@@ -11,7 +11,7 @@ import sys
 import numpy as np
 
 import e2e
-from common import Check, MachineryError, main_wrapper, run_tlc, run_workers, tlc_printed_values, worker_main
+from common import handle_crash, Check, MachineryError, main_wrapper, run_tlc, run_workers, tlc_printed_values, worker_main
 
 BOHR = 0.52917721092
 FAM = {"sl": ("none", "none"), "nldf_j": ("j", "none"), "nldf_i": ("i", "none"), "nldf_ij": ("ij", "none"), "nldf_k": ("k", "none"),
@@ -172,7 +172,8 @@ def main():
     ck.log("replaying %d rows (%d with finite-difference forces)" % (len(jobs), nfd))
     for res in run_workers(os.path.abspath(__file__), jobs, nproc=16, timeout=7000):
         if "crash" in res:
-            raise MachineryError("worker crashed: %s\n%s" % (res["crash"], res.get("tb")))
+            handle_crash(ck, res)
+            continue
         job = jobs[res["id"]]
         ck.evaluations += res["n"]
         ck.count(key=res["id"], n=0)
